@@ -276,5 +276,6 @@ LEVEL_TEXT = ('Proved: the folder bookkeeping of a round (every scheduled candid
               'TMPDIR is empty after every exit path of run_pass (shim runs incl. ZeroSizeError, PassBugError, growth bail-out) '
               'and, with the genuine pebble pool and hanging / forking / self-killing tests, no recorded pid is alive afterwards.')
 LEVEL_NOTE = ('Partial by nature: that a directory is really gone and a process really dead are OS facts, observed not proved; '
-              'pebble worker killing and the Popen/STARTED window are outside the model. Trusted: Coq kernel, driver model, shim.')
+              'pebble worker killing is outside the model; the window between Popen and the STARTED message is real (known finding '
+              'late-start-unregistered: reproduced every run by delaying the message; a leak in every undelayed run stays a violation). Trusted: Coq kernel, driver model, shim.')
 TECHNIQUE = 'Rocq proof of the bookkeeping (permutation invariant, pid-set spec) + exit-path enumeration on the real TestManager + real-pool process/TMPDIR observation'
